@@ -13,7 +13,7 @@
    Text "" is ion-go's representation of undefined text in Symbols(); lookups by
    name are stated for non-empty text, and what happens for "" is characterised
    (C09_find_empty, C09_builder_find_empty, the two _empty_refuted). *)
-From Coq Require Import List NArith ZArith.
+From Coq Require Import List NArith ZArith String.
 From IonV Require Import Base.Wire Sym.SymTab Sym.SymTabP.
 Import ListNotations.
 Open Scope N_scope.
@@ -99,6 +99,30 @@ Theorem C09_token_by_text : forall t x,
                                       | Some id => to_i64 id | None => sid_unknown end)).
 Proof. exact new_token_spec. Qed.
 
+(* ---- symbolIdentifier / newSymbolToken: what text is a symbol ID reference ------------------------ *)
+(* sid_form x ds: x = "$" ++ ds, ds non-empty, every byte of ds a decimal digit;
+   sid_digits_value ds: the decimal value of ds.  No sign, no other character. *)
+Theorem C09_symbol_identifier : forall x n,
+  symbol_identifier x = (n, true) <->
+  exists ds, sid_form x ds /\ n = Z.of_N (sid_digits_value ds) /\ (n <= 9223372036854775807)%Z.
+Proof. exact symbol_identifier_spec. Qed.
+Theorem C09_symbol_identifier_other : forall x, (forall ds, ~ sid_form x ds) ->
+  symbol_identifier x = (sid_unknown, false).
+Proof. exact symbol_identifier_other. Qed.
+Theorem C09_symbol_identifier_beyond : forall x ds, sid_form x ds -> two63 <= sid_digits_value ds ->
+  symbol_identifier x = (sid_unknown, false).
+Proof. exact symbol_identifier_beyond. Qed.
+Theorem C09_auto_token_sid : forall t x ds, sid_form x ds -> sid_digits_value ds < two63 ->
+  new_symbol_token_auto t x = new_token_by_sid t (Z.of_N (sid_digits_value ds)).
+Proof. exact new_symbol_token_auto_sid. Qed.
+(* an unquoted $n whose n does not fit an int64 is an undefined symbol ID, not text *)
+Theorem C09_auto_token_out_of_range : forall t x ds, sid_form x ds -> two63 <= sid_digits_value ds ->
+  new_symbol_token_auto t x = Err.
+Proof. exact new_symbol_token_auto_out_of_range. Qed.
+Theorem C09_auto_token_text : forall t x, (forall ds, ~ sid_form x ds) ->
+  new_symbol_token_auto t x = new_token t x.
+Proof. exact new_symbol_token_auto_text. Qed.
+
 (* ---- builder: for every history of Add calls ---------------------------------------------------- *)
 Theorem C09_builder_existing : forall b x id, lst_find_by_name b x = Some id ->
   builder_add b x = (b, id, false).
@@ -172,6 +196,19 @@ Qed.
 Example C09_ex_tokens :
   new_token_by_sid ex_t 25 = Err /\ new_token_by_sid ex_t (-1) = Err /\
   new_token_by_sid ex_t 12 = Ok (mkTok None 12) /\ new_token_by_sid ex_t 24 = Ok (mkTok (Some [110; 97; 109; 101]) 24) /\
-  symbol_identifier [36; 43; 55] = (7%Z, true) /\ symbol_identifier [36; 45; 49] = ((-1)%Z, true) /\
-  symbol_identifier [36] = ((-1)%Z, false).
+  symbol_identifier [36; 43; 55] = ((-1)%Z, false) /\ symbol_identifier [36; 45; 49] = ((-1)%Z, false) /\
+  symbol_identifier [36; 48; 55] = (7%Z, true) /\ symbol_identifier [36] = ((-1)%Z, false) /\
+  new_symbol_token_auto ex_t [36; 43; 55] = Ok (mkTok (Some [36; 43; 55]) (-1)) /\
+  new_symbol_token_auto ex_t [36; 50; 52] = Ok (mkTok (Some [110; 97; 109; 101]) 24).
 Proof. vm_compute. repeat split; reflexivity. Qed.
+(* "$9223372036854775807" is the largest symbol identifier; "$9223372036854775808" is none, and an error as a token *)
+Example C09_ex_sid_form :
+  sid_form (s "$9223372036854775808"%string) (s "9223372036854775808"%string) /\
+  sid_digits_value (s "9223372036854775808"%string) = two63 /\
+  symbol_identifier (s "$9223372036854775807"%string) = (9223372036854775807%Z, true) /\
+  symbol_identifier (s "$9223372036854775808"%string) = ((-1)%Z, false) /\
+  new_symbol_token_auto ex_t (s "$9223372036854775808"%string) = Err.
+Proof.
+  split; [|vm_compute; repeat split; reflexivity].
+  split; [reflexivity|]. split; [discriminate|]. vm_compute. repeat constructor; discriminate.
+Qed.
